@@ -30,7 +30,7 @@ META = dict(
     functions=["fdtd.update.update_E (dispersive ADE branch, diagonal case)", "fdtd.update.update_H", "fdtd.forward.forward", "fdtd.initialization._init_arrays (dispersive coefficient allocation)"],
     assumptions=["reals for floats", "coefficient arrays symbolic on the cells where placement made them non-zero, zero elsewhere; P_curr, P_prev, E, H symbolic",
                  "E-field part of the oracle for clause (b): the non-dispersive placement of the same scene"],
-    outside="clause 2 (passive media stay bounded for 1e4 steps): long-horizon float stability, not encodable; oriented (off-diagonal) poles; full-tensor permittivity branch",
+    outside="clause 2 (passive media stay bounded for 1e4 steps) beyond its necessary condition 'accepted => omega_0*dt < 2' (accepted-implies-stable-* cases): long-horizon float stability is not encodable; oriented (off-diagonal) poles; full-tensor permittivity branch",
     bounds=dict(quick=dict(shape=(3, 3, 3)), thorough=dict(shapes=[(3, 3, 3), (4, 3, 2)])),
 )
 
@@ -40,6 +40,11 @@ def cases(tier, seed):
            dict(name="drude+lorentz-peraxis", poles="mixed", shape=(3, 3, 3), bounds="pec"),
            # a CCPR pole (dE/dt coupling c4, implicit divide) together with electric conductivity (second implicit divide)
            dict(name="ccpr-lossy", poles="ccpr_lossy", shape=(3, 3, 3), bounds="periodic")]
+    # necessary condition of clause 2: what the coefficient builders ACCEPT has omega_0*dt < 2 (the stability range of the
+    # polarization recurrence); an accepted pole outside it is replayed and its recurrence roots are computed (seeded change C36b)
+    out += [dict(name=f"accepted-implies-stable-{fam}-{fn}", kind="accept", fam=fam, fn=fn)
+            for fam, fn in ([("lorentz_o", "tensor"), ("lorentz3", "per_axis")] if tier == "quick" else
+                            [("lorentz_o", "tensor"), ("lorentz3", "per_axis"), ("lorentz", "tensor"), ("lorentz3", "tensor"), ("lorentz", "scalar")])]
     if tier != "quick":
         out += [dict(name="lorentz-iso-4x3x2-lossy", poles="lorentz_lossy", shape=(4, 3, 2), bounds="periodic"),
                 dict(name="drude-iso-pmc", poles="drude", shape=(3, 3, 3), bounds="pmc")]
@@ -62,7 +67,56 @@ def _material(kind):
     raise ValueError(kind)
 
 
+def _accept(c, case):
+    """every non-raising path of the real coefficient builder, with all pole parameters and dt symbolic: accepted => omega_0*dt < 2."""
+    import fdtdx.dispersion as dp
+    from ..pysym import fresh_real
+    from . import c35
+
+    P, dom, build, declared, box, orient, fam, seeds = c35._family(case["fam"])
+    dt, cdt = fresh_real("dt", 0, None, lo_strict=True)
+    real_fn = dict(per_axis=dp.compute_pole_coefficients_per_axis, tensor=dp.compute_pole_coefficients_tensor, scalar=dp.compute_pole_coefficients)[case["fn"]]
+    c.functions.add("dispersion." + real_fn.__name__ + (" (oriented pole)" if orient else ""))
+    c.symvars += len(P) + 1
+    paths = c35._explore(c, lambda: real_fn(build(P), dt), dom + cdt, [dp])
+    tv = {k: v.t for k, v in P.items()}
+    axes3 = case["fam"].endswith("3")
+    w0s = [tv["w0" + sfx] for sfx in (["_x", "_y", "_z"] if axes3 else [""])]
+
+    def replay(m):
+        v, dtv = c35._conc(m, P, dt)
+        try:
+            res = real_fn(build(v), dtv)
+        except Exception as ex:  # noqa: BLE001
+            return False, dict(params=v, dt=dtv, raised=repr(ex)[:200])
+        c1, c2 = np.asarray(res[0], dtype=float).reshape(-1), np.asarray(res[1], dtype=float).reshape(-1)
+        worst = 0.0
+        for a, b in zip(c1, c2):
+            if a == 0 and b == 0:
+                continue
+            worst = max(worst, float(np.max(np.abs(np.roots([1.0, -a, -b])))))  # P_new = c1 P + c2 P_prev + ...
+        w0dt = max(float(v[k]) for k in v if k.startswith("w0")) * dtv
+        return worst > 1.0 + 1e-9, dict(params=v, dt=dtv, omega0_dt=w0dt, largest_recurrence_root_modulus=worst,
+                                        note="accepted without error; the polarization recurrence has a root outside the unit circle")
+
+    accepted = 0
+    for pi, (res, exc, pc) in enumerate(paths):
+        if exc is not None:
+            continue
+        accepted += 1
+        for ax, w0 in enumerate(w0s):
+            c.prove(f"path{pi}: accepted => omega_0*dt < 2 (axis {ax})", w0 * w0 * dt.t * dt.t < 4, list(pc) + list(dom) + list(cdt), replay, key=f"accepted-unstable:{case['fam']}:{case['fn']}")
+    if not accepted:
+        raise Inconclusive("no accepting path")
+    c.witness("twin: a pole with omega_0*dt < 2 is accepted on some path", z3.Or(*[z3.And(*pc) if pc else z3.BoolVal(True) for (r, e, pc) in paths if e is None]), list(dom) + list(cdt) + [w0s[0] * dt.t < 1])
+    rej = [pc for (r, e, pc) in paths if e is not None]
+    if not rej:
+        c.fail_concrete("the coefficient builder has no rejecting path at all (omega_0*dt >= 2 is never refused)", dict(family=case["fam"], fn=case["fn"]), key=f"accepted-unstable:{case['fam']}:{case['fn']}:no-reject-path")
+
+
 def run_case(c, case):
+    if case.get("kind") == "accept":
+        return _accept(c, case)
     shape = tuple(case["shape"])
     mat = _material(case["poles"])
     plain = fdtdx.Material(permittivity=mat.permittivity, electric_conductivity=mat.electric_conductivity)
